@@ -540,8 +540,8 @@ Proof.
 Qed.
 
 (* extendAllocation step 1 changes sizes, terms and offers only *)
-Lemma ss_extend_terms_cpivs : forall c req diff size bas bls bas' bls',
-  ss_extend_terms c req diff size bas bls = Some (bas', bls') -> map ba_cpiv bas' = map ba_cpiv bas.
+Lemma ss_extend_terms_cpivs : forall c req diff bas bls bas' bls',
+  ss_extend_terms c req diff bas bls = Some (bas', bls') -> map ba_cpiv bas' = map ba_cpiv bas.
 Proof.
   induction bas as [|d tl IH]; cbn [ss_extend_terms]; intros bls bas' bls' H.
   - inversion H; reflexivity.
@@ -549,74 +549,89 @@ Proof.
     cbn. f_equal. eauto.
 Qed.
 
-(* adjustChallengePool without a wrap-around moves pool and values together *)
-Lemma ss_adjust_loop_ok : forall odrtu ndrtu bas owps w cp mtc mb bas' w' cp' mtc' mb',
-  ss_adjust_loop odrtu ndrtu bas owps w cp mtc mb = Some (bas', w', cp', mtc', mb', false) ->
-  Forall (fun d => 0 <= ba_cpiv d < 2 ^ 64) bas -> 0 <= w -> 0 <= cp < 2 ^ 64 ->
-  Forall (fun d => 0 <= ba_cpiv d) bas' /\ 0 <= w' /\ 0 <= cp' < 2 ^ 64 /\
+(* adjustChallengePool moves pool and values together; the unchecked addition cannot wrap when the
+   values of the remaining blobbers are covered by the pool *)
+Lemma ss_adjust_loop_ok : forall odrtu ndrtu bas owps w cp mtc mb bas' w' cp' mtc' mb' f,
+  ss_adjust_loop odrtu ndrtu bas owps w cp mtc mb = Some (bas', w', cp', mtc', mb', f) ->
+  Forall (fun d => 0 <= ba_cpiv d) bas -> 0 <= w -> 0 <= cp < 2 ^ 64 -> ss_sum_cpiv bas <= cp ->
+  f = false /\ Forall (fun d => 0 <= ba_cpiv d) bas' /\ 0 <= w' /\ 0 <= cp' < 2 ^ 64 /\
   ss_sum_cpiv bas' - ss_sum_cpiv bas = cp' - cp.
 Proof.
   unfold ss_sum_cpiv.
-  induction bas as [|d tl IH]; cbn [ss_adjust_loop]; intros owps w cp mtc mb bas' w' cp' mtc' mb' H Hb Hw Hcp.
+  induction bas as [|d tl IH]; cbn [ss_adjust_loop]; intros owps w cp mtc mb bas' w' cp' mtc' mb' f H Hb Hw Hcp Hs.
   - inversion H; subst. cbn. repeat split; auto; lia.
-  - destruct owps as [|owp otl]; [discriminate|]. inversion Hb as [|? ? Hd Htl]; subst.
+  - destruct owps as [|owp otl]; [discriminate|]. inversion Hb as [|? ? Hd Htl]; subst. cbn [map ss_sum] in Hs.
+    assert (Hstl : 0 <= ss_sum (map ba_cpiv tl)) by (apply (ss_sum_cpiv_nonneg tl Htl)).
     destruct (ba_used d =? 0).
-    { bind_inv H. destruct x as [[[[[ds w1] cp1] mtc1] mb1] f]. inversion H; subst.
-      destruct (IH _ _ _ _ _ _ _ _ _ _ E Htl Hw Hcp) as [A [B [C D]]]. cbn. repeat split; auto; try lia. constructor; [lia | exact A]. }
+    { bind_as H [[[[[ds w1] cp1] mtc1] mb1] f1] E. inversion H; subst.
+      destruct (IH _ _ _ _ _ _ _ _ _ _ _ E Htl Hw Hcp) as [F [A [B [C D]]]]; try lia. cbn. repeat split; auto; try lia; try (constructor; [lia | exact A]). }
     guard_inv H.
     match type of H with (if ?v =? 0 then _ else _) = _ => set (V := v) in * end.
     assert (HV : 0 <= V < 2 ^ 64) by (subst V; apply f64_to_u64_range).
     destruct (V =? 0).
-    { bind_inv H. destruct x as [[[[[ds w1] cp1] mtc1] mb1] f]. inversion H; subst.
-      destruct (IH _ _ _ _ _ _ _ _ _ _ E Htl Hw Hcp) as [A [B [C D]]]. cbn. repeat split; auto; try lia. constructor; [lia | exact A]. }
+    { bind_as H [[[[[ds w1] cp1] mtc1] mb1] f1] E. inversion H; subst.
+      destruct (IH _ _ _ _ _ _ _ _ _ _ _ E Htl Hw Hcp) as [F [A [B [C D]]]]; try lia. cbn. repeat split; auto; try lia; try (constructor; [lia | exact A]). }
     destruct (f64_ltb _ f64_zero).
-    + bind_inv H. destruct x as [w1 cp1]. apply ss_move_from_cp_some in E. destruct E as [-> [-> Hle]].
-      bind_inv H. destruct x as [[[[[ds w2] cp2] mtc2] mb2] f]. inversion H; subst. clear H.
-      apply orb_false_iff in H6. destruct H6 as [-> Hnw]. apply Z.ltb_ge in Hnw.
-      assert (Hwr : ss_wrap (ba_cpiv d - V) = ba_cpiv d - V) by (unfold ss_wrap; apply Z.mod_small; lia).
-      destruct (IH _ _ _ _ _ _ _ _ _ _ E Htl) as [A [B [C D]]]; try lia.
-      cbn. rewrite Hwr. repeat split; auto; try lia. constructor; [cbn; lia | exact A].
-    + bind_inv H. destruct x as [w1 cp1]. apply ss_move_to_cp_some in E. destruct E as [-> [-> [Hlt Hle]]].
-      bind_inv H. destruct x as [[[[[ds w2] cp2] mtc2] mb2] f]. inversion H; subst. clear H.
-      apply orb_false_iff in H6. destruct H6 as [-> Hnw]. apply Z.leb_gt in Hnw.
+    + bind_as H [w1 cp1] E. apply ss_move_from_cp_some in E. destruct E as [-> [-> Hle]].
+      bind_as H v' Ev. apply ss_minus_coin_some in Ev. destruct Ev as [-> Hle2].
+      bind_as H [[[[[ds w2] cp2] mtc2] mb2] f1] E. inversion H; subst. clear H.
+      destruct (IH _ _ _ _ _ _ _ _ _ _ _ E Htl) as [F [A [B [C D]]]]; try lia.
+      cbn. repeat split; auto; try lia; try (constructor; [cbn; lia | exact A]).
+    + bind_as H [w1 cp1] E. apply ss_move_to_cp_some in E. destruct E as [-> [-> [Hlt Hle]]].
+      bind_as H [[[[[ds w2] cp2] mtc2] mb2] f1] E. inversion H; subst. clear H.
+      destruct (IH _ _ _ _ _ _ _ _ _ _ _ E Htl) as [F [A [B [C D]]]]; try lia.
       assert (Hwr : ss_wrap (ba_cpiv d + V) = ba_cpiv d + V) by (unfold ss_wrap; apply Z.mod_small; lia).
-      destruct (IH _ _ _ _ _ _ _ _ _ _ E Htl) as [A [B [C D]]]; try lia.
-      cbn. rewrite Hwr. repeat split; auto; try lia. constructor; [cbn; lia | exact A].
+      subst f1. cbn. rewrite Hwr. repeat split; auto; try lia;
+        try (apply Z.leb_gt; lia); try (constructor; [cbn; lia | exact A]).
 Qed.
 
 Lemma ss_extend_c12 : forall c s now a size s' a' fired,
-  al_c12 a -> ss_extend c s now a size = Some (s', a', fired) -> fired = false ->
-  al_c12 a' /\ st_allocs s' = st_allocs s.
+  al_c12 a -> ss_extend c s now a size = Some (s', a', fired) ->
+  fired = false /\ al_c12 a' /\ st_allocs s' = st_allocs s.
 Proof.
-  unfold ss_extend; intros c s now a size s' a' fired Ha H Hf.
-  bind_inv H. bind_inv H. destruct x0 as [bas bls]. apply ss_extend_terms_cpivs in E0.
+  unfold ss_extend; intros c s now a size s' a' fired Ha H.
+  bind_as H [bas bls] E0. apply ss_extend_terms_cpivs in E0.
   assert (Ha1 : al_c12 (al_with_bas (al_with_head a (al_owner a) (now + ss_tu_sec c) (al_size a + size) (al_parity a) (al_tpe a)) bas)).
   { unfold al_c12, al_with_bas. rewrite al_with_pools_money. cbn [al_cp al_wpool al_with_head]. rewrite E0. exact Ha. }
   cbn [al_used al_with_bas al_with_pools al_with_head] in H.
-  destruct (al_used a =? 0); [inversion H; subst; split; [exact Ha1 | reflexivity]|].
-  bind_inv H. bind_inv H. bind_inv H. rename x2 into cp. bind_inv H. destruct x2 as [[[[[bas' w] cp'] mtc] mb] f].
-  inversion H; subst. clear H. split; [|reflexivity].
+  destruct (al_used a =? 0); [inversion H; subst; split; [reflexivity | split; [exact Ha1 | reflexivity]]|].
+  bind_as H odrtu E1. bind_as H ndrtu E2. bind_as H cp E3. bind_as H [[[[[bas' w] cp'] mtc] mb] f] E4.
+  inversion H; subst. clear H.
   cbn [al_cp al_wpool al_mtc al_mb al_with_bas al_with_pools al_with_head] in *.
   pose proof (al_c12_cp _ Ha) as Hcp. rewrite E3 in Hcp. inversion Hcp; subst cp. clear Hcp.
   pose proof (al_c12_sum_lt _ Ha) as Hlt. pose proof (al_c12_wpool _ Ha) as Hw.
   assert (Hnn : Forall (fun d => 0 <= ba_cpiv d) (al_bas a)) by (destruct Ha as [_ [Hn _]]; apply cpivs_nonneg_Forall; exact Hn).
   assert (Hsum : ss_sum_cpiv bas = ss_sum_cpiv (al_bas a)) by (unfold ss_sum_cpiv; rewrite E0; reflexivity).
   assert (Hnn' : Forall (fun d => 0 <= ba_cpiv d) bas) by (apply cpivs_nonneg_Forall; rewrite E0; apply cpivs_nonneg_Forall; exact Hnn).
-  assert (Hb : Forall (fun d => 0 <= ba_cpiv d < 2 ^ 64) bas).
-  { rewrite Forall_forall in *. intros d Hin. split; [apply Hnn'; exact Hin|].
-    pose proof (ss_cpiv_le_sum bas d). rewrite Forall_forall in H. specialize (H Hnn' Hin). lia. }
-  apply ss_adjust_loop_ok in E4; auto; [|pose proof (ss_sum_cpiv_nonneg _ Hnn); lia].
-  destruct E4 as [A [B [C D]]].
+  apply ss_adjust_loop_ok in E4; auto; [|pose proof (ss_sum_cpiv_nonneg _ Hnn); lia | lia].
+  destruct E4 as [F [A [B [C D]]]]. split; [exact F|]. split; [|reflexivity].
   unfold al_c12. rewrite al_with_pools_money. unfold c12_money; cbn [fst snd]. fold (ss_sum_cpiv bas').
   repeat split; auto; try lia.
   - f_equal. lia.
   - apply cpivs_nonneg_Forall. exact A.
 Qed.
 
-Lemma ss_update_f_c12 : forall c s now round sender alloc value size ext tpe add rem own s',
-  st_c12 s -> 0 <= value -> ss_update_f c s now round sender alloc value size ext tpe add rem own = Some (s', false) -> st_c12 s'.
+Lemma ss_replace_flag : forall c s now round a r nb s' a' f, ss_replace c s now round a r nb = Some (s', a', f) -> f = false.
 Proof.
-  unfold ss_update_f; intros c s now round sender alloc value size ext tpe add rem own s' Hs Hv H.
+  unfold ss_replace; intros c s now round a r nb s' a' f H. bind_as H d Ed. bind_as H b Eb. destruct (bl_killed b || bl_shut b).
+  - bind_as H cp E1. bind_as H [w cp'] E2. bind_as H mb E3. inversion H; reflexivity.
+  - bind_as H [[a1 rate] gone] E1. bind_as H d1 E2. bind_as H b0 E3. bind_as H cp E4. bind_as H [[[b1 d2] rew] pen] E5.
+    bind_as H cp1 E6. bind_as H mb E7. bind_as H [w cp2] E8. guard_inv H. bind_as H due E9. bind_as H [b2 w2] E10. inversion H; reflexivity.
+Qed.
+
+Lemma ss_change_blobbers_flag : forall c s now round a add rem s' a' f,
+  ss_change_blobbers c s now round a add rem = Some (s', a', f) -> f = false.
+Proof.
+  unfold ss_change_blobbers; intros c s now round a add rem s' a' f H.
+  guard_inv H. bind_as H ab E1. guard_inv H. bind_as H [[s1 a1] f1] E2. bind_as H ab2 E3. inversion H; subst.
+  destruct rem; [eapply ss_replace_flag; eauto | inversion E2; reflexivity].
+Qed.
+
+Lemma ss_update_f_c12 : forall c s now round sender alloc value size ext tpe add rem own s' f,
+  st_c12 s -> 0 <= value -> ss_update_f c s now round sender alloc value size ext tpe add rem own = Some (s', f) ->
+  f = false /\ st_c12 s'.
+Proof.
+  unfold ss_update_f; intros c s now round sender alloc value size ext tpe add rem own s' f Hs Hv H.
   bind_as H a Ea. guard_inv H. guard_inv H. guard_inv H. guard_inv H. guard_inv H. guard_inv H. guard_inv H.
   bind_as H [s1 a1] E1. bind_as H bl Ebl. bind_as H [[s2 a2] fired] E2. bind_as H cp Ecp. bind_as H need En. guard_inv H.
   inversion H; subst. clear H.
@@ -630,27 +645,25 @@ Proof.
       unfold al_c12. rewrite al_with_pools_money. repeat split; auto. cbn in *. lia.
     - inversion E1; subst. auto. }
   destruct H1 as [Ha1 Es1].
-  assert (H2 : al_c12 a2 /\ st_allocs s2 = st_allocs s1).
+  assert (H2 : f = false /\ al_c12 a2 /\ st_allocs s2 = st_allocs s1).
   { destruct (negb (sender =? al_owner a1)).
     - eapply ss_extend_c12; eauto.
     - bind_as E2 [[sa aa] f1] Ech. bind_as E2 [[sb ab] f2] Eex.
-      assert (Hcommon : f1 = false -> f2 = false -> al_c12 ab /\ st_allocs sb = st_allocs s1).
-      { intros -> ->.
-        assert (Ha' : al_c12 aa /\ st_allocs sa = st_allocs s1).
-        { destruct add as [x0|]; [eapply ss_change_blobbers_c12; eauto | inversion Ech; subst; auto]. }
-        destruct Ha' as [Haa Esa].
-        assert (Hb' : al_c12 ab /\ st_allocs sb = st_allocs sa).
-        { destruct (ext || (0 <? size)); [eapply ss_extend_c12; eauto | inversion Eex; subst; auto]. }
-        destruct Hb' as [Hab Esb]. split; [exact Hab | congruence]. }
+      assert (Ha' : f1 = false /\ al_c12 aa /\ st_allocs sa = st_allocs s1).
+      { destruct add as [x0|].
+        - pose proof (ss_change_blobbers_flag _ _ _ _ _ _ _ _ _ _ Ech) as Hf1. subst f1.
+          split; [reflexivity|]. eapply ss_change_blobbers_c12; eauto.
+        - inversion Ech; subst; auto. }
+      destruct Ha' as [-> [Haa Esa]].
+      assert (Hb' : f2 = false /\ al_c12 ab /\ st_allocs sb = st_allocs sa).
+      { destruct (ext || (0 <? size)); [eapply ss_extend_c12; eauto | inversion Eex; subst; auto]. }
+      destruct Hb' as [-> [Hab Esb]].
       destruct own as [[o wp]|].
       + destruct (o =? _).
-        * inversion E2; subst. match goal with Hx : _ || _ = false |- _ => apply orb_false_iff in Hx; destruct Hx as [Hx1 Hx2] end.
-          destruct (Hcommon Hx1 Hx2) as [Hab Esb]. split; [|exact Esb]. unfold al_c12. rewrite al_with_head_money. exact Hab.
-        * guard_inv E2. inversion E2; subst. match goal with Hx : _ || _ = false |- _ => apply orb_false_iff in Hx; destruct Hx as [Hx1 Hx2] end.
-          destruct (Hcommon Hx1 Hx2) as [Hab Esb]. split; [|exact Esb]. unfold al_c12. repeat rewrite al_with_head_money. exact Hab.
-      + inversion E2; subst. match goal with Hx : _ || _ = false |- _ => apply orb_false_iff in Hx; destruct Hx as [Hx1 Hx2] end.
-        destruct (Hcommon Hx1 Hx2) as [Hab Esb]. split; [|exact Esb]. unfold al_c12. rewrite al_with_head_money. exact Hab. }
-  destruct H2 as [Ha2 Es2].
+        * inversion E2; subst. split; [reflexivity|]. split; [|congruence]. unfold al_c12. rewrite al_with_head_money. exact Hab.
+        * guard_inv E2. inversion E2; subst. split; [reflexivity|]. split; [|congruence]. unfold al_c12. repeat rewrite al_with_head_money. exact Hab.
+      + inversion E2; subst. split; [reflexivity|]. split; [|congruence]. unfold al_c12. rewrite al_with_head_money. exact Hab. }
+  destruct H2 as [Hf [Ha2 Es2]]. split; [exact Hf|].
   unfold st_c12. cbn [st_allocs st_with_allocs]. rewrite Es2, Es1. apply Forall_set_alloc; auto.
 Qed.
 
@@ -687,7 +700,7 @@ Lemma ss_shutdown_allocs : forall c s a b s', ss_shutdown c s a b = Some s' -> s
 Proof.
   unfold ss_shutdown; intros c s a b s' H. bind_as H x E. destruct (bl_killed x || bl_shut x).
   - inversion H; reflexivity.
-  - bind_as H y Ey. guard_inv H. inversion H; reflexivity.
+  - guard_inv H. bind_as H y Ey. inversion H; reflexivity.
 Qed.
 
 Lemma ss_upd_blobber_allocs : forall c s a b cap wp rp na s', ss_upd_blobber c s a b cap wp rp na = Some s' -> st_allocs s' = st_allocs s.
@@ -713,9 +726,9 @@ Proof.
 Qed.
 
 Theorem ss_apply_c12 : forall c s now round o s',
-  st_c12 s -> ss_op_wf o -> ss_apply c s now round o = Some s' -> ss_fired c s now round o = false -> st_c12 s'.
+  st_c12 s -> ss_op_wf o -> ss_apply c s now round o = Some s' -> st_c12 s'.
 Proof.
-  intros c s now round o s' Hs Hwf H Hf. destruct o; cbn [ss_apply ss_op_wf ss_fired] in *.
+  intros c s now round o s' Hs Hwf H. destruct o; cbn [ss_apply ss_op_wf] in *.
   - discriminate.
   - eapply ss_new_alloc_c12; eauto.
   - eapply ss_wp_lock_c12; eauto.
@@ -736,22 +749,24 @@ Proof.
   - eapply ss_free_alloc_c12; eauto.
 Qed.
 
-(* histories: the invariant holds after every prefix in which no defect fired *)
-Fixpoint ss_run_fired (c : ss_conf) (s : ss_state) (ts : list (Z * Z * ss_op)) : bool :=
-  match ts with
-  | [] => false
-  | (now, round, o) :: tl => ss_fired c s now round o || ss_run_fired c (fst (ss_step c s (now, round, o))) tl
-  end.
-
-Theorem ss_run_c12 : forall c ts s,
-  st_c12 s -> Forall (fun t => ss_op_wf (snd t)) ts -> ss_run_fired c s ts = false -> st_c12 (fst (ss_run c s ts)).
+(* the unchecked addition of adjustChallengePool never wraps on states satisfying the invariant *)
+Theorem ss_never_fired : forall c s now round o, st_c12 s -> ss_op_wf o -> ss_fired c s now round o = false.
 Proof.
-  induction ts as [|[[now round] o] tl IH]; cbn [ss_run ss_run_fired]; intros s Hs Hwf Hf; [exact Hs|].
-  inversion Hwf; subst. apply orb_false_iff in Hf. destruct Hf as [Hf1 Hf2].
+  intros c s now round o Hs Hwf. destruct o; cbn [ss_fired]; try reflexivity.
+  destruct (ss_update_f c s now round sender alloc value size extend set_tpe add remove new_owner) as [[s2 f]|] eqn:E; [|reflexivity].
+  eapply ss_update_f_c12 in E; eauto. destruct E; auto.
+Qed.
+
+(* histories: the invariant holds after every prefix *)
+Theorem ss_run_c12 : forall c ts s,
+  st_c12 s -> Forall (fun t => ss_op_wf (snd t)) ts -> st_c12 (fst (ss_run c s ts)).
+Proof.
+  induction ts as [|[[now round] o] tl IH]; cbn [ss_run]; intros s Hs Hwf; [exact Hs|].
+  inversion Hwf; subst.
   unfold ss_step in *. destruct (ss_apply c s now round o) as [s1|] eqn:E.
-  - cbn in Hf2. specialize (IH s1). destruct (ss_run c s1 tl) as [s2 oks] eqn:Er. cbn. 
-    assert (Hs1 : st_c12 s1) by (eapply ss_apply_c12; eauto). specialize (IH Hs1 H2 Hf2). exact IH.
-  - cbn in Hf2. specialize (IH s Hs H2 Hf2). destruct (ss_run c s tl) as [s2 oks]. exact IH.
+  - specialize (IH s1). destruct (ss_run c s1 tl) as [s2 oks] eqn:Er. cbn.
+    assert (Hs1 : st_c12 s1) by (eapply ss_apply_c12; eauto). exact (IH Hs1 H2).
+  - specialize (IH s Hs H2). destruct (ss_run c s tl) as [s2 oks]. exact IH.
 Qed.
 
 (* the empty state satisfies the invariant *)
